@@ -217,6 +217,30 @@ def r_find_guard(repo, rep, R='R20.3'):
     return n
 
 
+def r_annotation_cut(repo, rep, R='R20.3'):
+    """a lexical category of the bank may be followed by `_` and a predicate-argument annotation that itself contains
+    underscores (`_I1(I2,_,_,_)`): the category ends at the FIRST underscore.  Cuts anchored at the last one (rsplit,
+    rpartition, rfind, rindex) keep a part of the annotation."""
+    mod = repo.module(JRD)
+    n = 0
+    first = 0
+    for fn in [f for f in ast.walk(mod.tree) if isinstance(f, ast.FunctionDef)]:
+        for c in ast.walk(fn):
+            a0 = mod.literal(c.args[0]) if isinstance(c, ast.Call) and c.args else None
+            if isinstance(c, ast.Call) and isinstance(c.func, ast.Attribute) and isinstance(a0, ast.Constant) and a0.value == '_':
+                n += 1
+                w = '%s:%s %s' % (JRD, c.lineno, qualname_of(fn))
+                right = c.func.attr in ('rsplit', 'rpartition', 'rfind', 'rindex')
+                if c.func.attr in ('find', 'index', 'split', 'partition'):
+                    first += 1
+                rep.check(not right, R, w, '%s:%s:annotation-cut' % (JRD, qualname_of(fn)),
+                          'the annotation is cut off at the first underscore (%s)' % c.func.attr,
+                          '`%s` cuts at the LAST underscore: for a category annotated with empty argument slots (S_I1(I2,_,_,_)) a part of the annotation stays on the '
+                          'category text and the line is rejected' % src(c)[:60])
+    rep.floor('cuts at the annotation underscore in the Japanese reader', n, 1)
+    return n
+
+
 def _r_find_guard_old(repo, rep, R='R20.3'):
     n = 0
     for rel in (RD, JRD):
@@ -494,6 +518,7 @@ def check(repo, rep, tier):
     n = r_symbols(repo, rep)
     rep.floor('Japanese rule symbols required', n, 13)
     nf = r_find_guard(repo, rep)
+    r_annotation_cut(repo, rep)
     rep.floor('reader functions scanned for find()-derived slices', nf, 25)
     r_ptb(repo, rep)
     r_ja(repo, rep)
